@@ -178,6 +178,39 @@ def rule_normalise_after_join(ctx):
     ctx.check("path = Path(root / path).relpath(root / here / workdir)" in src, tb.fq, "inverse resolution through ROOT / HERE / workdir", "changed", "ok")
 
 
+SURGERY = ("removeprefix", "removesuffix", "lstrip", "rstrip", "strip", "replace", "split", "rsplit", "partition", "rpartition")
+
+
+def rule_relative_by_relpath(ctx):
+    """R-C20-6: whether and how a path lies under the root (or the working directory) is decided by relpath on
+    normalised absolute paths, never by cutting a string prefix."""
+    n = 0
+    for fq in ("path.translate", "path.translate_back"):
+        fi = ctx.prog.func(fq)
+        cuts = []
+        for x in ast.walk(fi.node):
+            if isinstance(x, ast.Subscript) and isinstance(x.slice, ast.Slice):
+                cuts.append(x)
+            elif isinstance(x, ast.Call) and isinstance(x.func, ast.Attribute) and x.func.attr in SURGERY:
+                cuts.append(x)
+        n += 1
+        ctx.check(not cuts, fq, "no string surgery on the path", f"the result is cut out of the string ({', '.join(ast.unparse(c) for c in cuts[:3])}): a sibling directory whose name merely extends the root's name (proj-data next to proj) is taken to be inside the root and a different file is recorded", "relpath only", where=ctx.where_of(fi, cuts[0]) if cuts else ctx.where_of(fi))
+        # every return path that resolves through ROOT/HERE ends in relpath(...)
+        for tr, st in flow.paths_of(fi):
+            if st != "return":
+                continue
+            assigns = [e for e in tr if e[0] == "assign" and e[1] == "path"]
+            used_root = any(e[0] == "assign" and e[1] == "root" for e in tr)
+            if not used_root:
+                continue
+            n += 1
+            last = assigns[-1][2] if assigns else ""
+            ctx.check(re.search(r"\.relpath\([^()]*root[^()]*\)$", last) is not None, fq, "a path resolved through the root is returned as relpath(<root-based directory>)",
+                      f"last assignment on this path: {last!r}", "relpath", where=ctx.where_of(fi))
+    if n < 4:
+        raise AnalysisError("translate/translate_back: root-relative return paths not found")
+
+
 def rule_reserved(ctx):
     """R-C20-3."""
     rc = ctx.prog.func("executor.Executor._run_command")
@@ -215,9 +248,11 @@ RULES = [
     Rule("R-C20-5", "normalise after join", rule_normalise_after_join, min_instances=6),
     Rule("R-C20-3", "reserved variables", rule_reserved, min_instances=5),
     Rule("R-C20-4", "clean tool translates in and back", rule_clean_tool, min_instances=3),
+    Rule("R-C20-6", "relative paths are computed by relpath, not by cutting a prefix", rule_relative_by_relpath, min_instances=4),
 ]
 
 MUTANTS = [
+    Mutant("root-prefix-cut", "path.py", in_function("translate", replace_once("            path = (root / here / path).normpath().relpath(root)\n", "            path = (root / here / path).normpath()\n            path = Path(path[len(root) + 1 :]) if path.startswith(root) and path != root else path.relpath(root)\n")), ("R-C20-6",)),
     Mutant("step-no-workdir", "api.py", in_function("step", replace_once("tr_out_paths = [translate(out_path, su_workdir) for out_path in su_out_paths]", "tr_out_paths = [translate(out_path) for out_path in su_out_paths]")), ("R-C20-1",)),
     Mutant("amend-untranslated", "api.py", in_function("amend", replace_once("tr_inp_paths = {translate(inp_path) for inp_path in su_inp_paths}", "tr_inp_paths = set(su_inp_paths)")), ("R-C20-1",)),
     Mutant("workdir-double", "api.py", in_function("step", replace_once("tr_workdir = translate(su_workdir)", "tr_workdir = translate(su_workdir, su_workdir)")), ("R-C20-1",)),
